@@ -194,3 +194,7 @@ func (r *Replica) AuditRemoved(rm []Removed, stillValid map[string]bool) (fs []F
 	}
 	return fs, lookups
 }
+
+// MerkleRoot exposes the audit's own Merkle computation (used to put well-formed roots into
+// synthetic blocks that are handed to the ledger directly).
+func MerkleRoot(hashes []*types.Hash) (*types.Hash, error) { return merkleRoot(hashes) }
